@@ -441,4 +441,6 @@ func runC07(ctx *core.Ctx) {
 	}
 	// 4. the mapping handed to Substitute by its callers (dotenv, interpolation)
 	runC07Mapping(ctx, rnd)
+	// 5. SubstituteWithOptions under concrete configurations vs the parametric model
+	runC07Opts(ctx, rnd)
 }
